@@ -11,6 +11,7 @@ import (
 	"fgverif/gen"
 	"fgverif/impl"
 	"fgverif/mon"
+	"fgverif/synth"
 )
 
 // C11 — the Reader delivers what it already has: no waiting on input it does
@@ -125,6 +126,21 @@ func (c11) Run(c *mon.Ctx, i int) {
 	if err != nil {
 		c.Count("dropped:encode-error", 1)
 		return
+	}
+	if wrapper == "flate" && i%5 == 2 {
+		// shapes no writer at hand emits: a stream whose final block is a non-empty
+		// stored block (zlib level 0, pigz -0), or any synthesised stream
+		st := synth.NewStream(r)
+		if r.Bool() {
+			st.Fixed(false, synth.RandomTokens(r, 0, r.Range(0, 300), "mixed"), true)
+		}
+		if r.Chance(2, 3) {
+			st.Stored(true, r.Bytes(r.Range(1, 400)))
+		} else {
+			st.Fixed(true, synth.RandomTokens(r, len(st.Plain), r.Range(0, 300), "mixed"), true)
+		}
+		vs = &ValidStream{S: st.W.Bytes(), Plain: st.Plain, Desc: "synth " + fmt.Sprint(st.Desc)}
+		d = gen.Data{Desc: "synth", B: st.Plain}
 	}
 	// choose prefix
 	pi := r.Intn(len(vs.FlushEnds) + 1)
